@@ -82,6 +82,11 @@ pub enum Act {
     ThreadHop,
     /// C18(b): a request of exactly chunk_capacity() bytes is served from the current chunk
     CapProbe,
+    /// uniform sub-model (C10): alloc_try_with / try_alloc_try_with of a niche-optimised value whose
+    /// Result<T, ()> has size = align = 2^al
+    UniTryWith { al: u8, ok: bool, fallible: bool },
+    /// uniform sub-model: alloc_slice_try_fill_with of `len` elements of size = align = 2^al, failing at `fail_at`
+    UniSliceFail { al: u8, len: u8, fail_at: u8 },
 }
 
 #[derive(Clone, Debug, PartialEq, Eq)]
@@ -623,6 +628,7 @@ pub fn panic_kind(p: &PanicClass) -> &'static str {
         PanicClass::Oom => "oom",
         PanicClass::CapacityOverflow => "capacity_overflow",
         PanicClass::SizeOverflow => "size_overflow",
+        PanicClass::AllocError => "alloc_error",
         PanicClass::Assertion(_) => "assertion",
         PanicClass::Injected => "injected",
         PanicClass::Other(_) => "other",
@@ -1332,3 +1338,140 @@ fn twin_sm(m: SM) -> Option<SM> {
 
 #[allow(dead_code)]
 fn _unused(_: Blk) {}
+
+// ------------------------------------------------------------------------------------------
+// uniform sub-model (C10 exactness)
+// ------------------------------------------------------------------------------------------
+
+macro_rules! with_uni {
+    ($al:expr, $T:ident, $NZ:ident => $body:expr) => {
+        match $al {
+            0 => { type $T = u8; type $NZ = std::num::NonZeroU8; $body }
+            1 => { type $T = u16; type $NZ = std::num::NonZeroU16; $body }
+            2 => { type $T = u32; type $NZ = std::num::NonZeroU32; $body }
+            3 => { type $T = u64; type $NZ = std::num::NonZeroU64; $body }
+            _ => { type $T = u128; type $NZ = std::num::NonZeroU128; $body }
+        }
+    };
+}
+
+impl<const M: usize> World<M> {
+    pub fn do_uni_try_with(&mut self, al: u8, ok: bool, fallible: bool, script: &[Answer]) {
+        let what: &'static str = if fallible { "try_alloc_try_with(uniform)" } else { "alloc_try_with(uniform)" };
+        let (pre, pl) = self.pre();
+        let a = 1usize << al;
+        let envp = self.env;
+        let b = self.bump.take().unwrap();
+        // Ok(addr) / Err(true)=init error / Err(false)=alloc error
+        let r = arena_op(envp, self.step, self.arena, script, || -> Result<usize, bool> {
+            with_uni!(al, T, NZ => {
+                assert_eq!(std::mem::size_of::<Result<NZ, ()>>(), a);
+                assert_eq!(std::mem::align_of::<Result<NZ, ()>>(), a);
+                let v: NZ = NZ::new(T::MAX - 7).unwrap();
+                let init = || -> Result<NZ, ()> { if ok { Ok(v) } else { Err(()) } };
+                if fallible {
+                    match b.try_alloc_try_with(init) { Ok(r) => Ok(r as *mut NZ as usize), Err(bumpalo::AllocOrInitError::Init(())) => Err(true), Err(_) => Err(false) }
+                } else {
+                    match b.alloc_try_with(init) { Ok(r) => Ok(r as *mut NZ as usize), Err(()) => Err(true) }
+                }
+            })
+        });
+        self.bump = Some(b);
+        self.note_requests();
+        let o = match &r {
+            Ok(Ok(_)) => Outcome::Ok,
+            Ok(Err(true)) => Outcome::InitErr,
+            Ok(Err(false)) => Outcome::Err,
+            Err(p) => Outcome::Panic(p.clone()),
+        };
+        self.outcome_bits(&o);
+        self.tr(|| format!("{what} align {a} ok={ok} -> {:?}", o));
+        if let Ok(Ok(addr)) = r {
+            if !self.accept_block(what, addr, a, a, false, None) {
+                self.terminal = true;
+            }
+        }
+        let post = self.generic_post(what, &pre, pl, false);
+        self.finish(&post, &o);
+    }
+
+    pub fn do_uni_slice_fail(&mut self, al: u8, len: u8, fail_at: u8, script: &[Answer]) {
+        let what = "alloc_slice_try_fill_with(uniform)";
+        let (pre, pl) = self.pre();
+        let a = 1usize << al;
+        let n = len as usize;
+        let envp = self.env;
+        let b = self.bump.take().unwrap();
+        let r = arena_op(envp, self.step, self.arena, script, || -> Result<usize, ()> {
+            with_uni!(al, T, NZ => {
+                let _ = std::marker::PhantomData::<NZ>;
+                match b.alloc_slice_try_fill_with::<T, _, ()>(n, |i| if i == fail_at as usize { Err(()) } else { Ok(T::MAX - i as T) }) {
+                    Ok(s) => Ok(s.as_ptr() as usize),
+                    Err(()) => Err(()),
+                }
+            })
+        });
+        self.bump = Some(b);
+        self.note_requests();
+        let o = match &r {
+            Ok(Ok(_)) => Outcome::Ok,
+            Ok(Err(())) => Outcome::InitErr,
+            Err(p) => Outcome::Panic(p.clone()),
+        };
+        self.outcome_bits(&o);
+        self.tr(|| format!("{what} align {a} len {n} fail_at {fail_at} -> {:?}", o));
+        if let Ok(Ok(addr)) = r {
+            if !self.accept_block(what, addr, a * n, a, false, None) {
+                self.terminal = true;
+            }
+        }
+        let post = self.generic_post(what, &pre, pl, false);
+        self.finish(&post, &o);
+    }
+
+    /// C10 exactness: when every allocation has alignment `a` and a size multiple of it, the iterated
+    /// slices are exactly the allocated objects, newest first, nothing before/between/after.
+    pub fn check_exact(&mut self, a: usize) {
+        if !self.judge {
+            return;
+        }
+        let p = self.observe();
+        if !p.iter_ok || p.nchunks > super::world::MAX_CHUNKS_OBS {
+            return;
+        }
+        // expected: live blocks in reverse allocation order (live is in allocation order)
+        let mut idx = self.live.len();
+        for c in 0..p.nchunks {
+            let (ptr, len) = p.chunks[c];
+            let mut at = ptr;
+            while at < ptr + len {
+                if idx == 0 {
+                    self.v(10, "iterated_bytes_not_objects", "iterated_bytes_not_objects/extra_bytes".into(), format!("uniform align {a}: chunk slice {c} [rel {},+{len}) has {} byte(s) at rel {} that belong to no allocated object", self.rel(ptr), ptr + len - at, self.rel(at)));
+                    return;
+                }
+                let b = self.live[idx - 1];
+                if b.size == 0 {
+                    idx -= 1;
+                    continue;
+                }
+                if b.addr != at {
+                    let kind = if b.addr > at && b.addr < ptr + len { "gap_or_order" } else { "extra_bytes" };
+                    self.v(10, "iterated_bytes_not_objects", format!("iterated_bytes_not_objects/{kind}"), format!("uniform align {a}: in chunk slice {c} [rel {},+{len}) offset {} should start the next most recent object (rel {}, {} bytes)", self.rel(ptr), at - ptr, self.rel(b.addr), b.size));
+                    return;
+                }
+                at += b.size;
+                idx -= 1;
+            }
+            if at != ptr + len {
+                self.v(10, "iterated_bytes_not_objects", "iterated_bytes_not_objects/object_crosses_slice_end".into(), format!("uniform align {a}: an object extends past the end of chunk slice {c}"));
+                return;
+            }
+        }
+        while idx > 0 && self.live[idx - 1].size == 0 {
+            idx -= 1;
+        }
+        if idx != 0 {
+            self.v(10, "iterated_bytes_not_objects", "iterated_bytes_not_objects/object_missing".into(), format!("uniform align {a}: {idx} allocated object(s) do not appear in the iterated slices"));
+        }
+    }
+}
